@@ -123,7 +123,7 @@ def lookupCase (tbl : Table) (v : Nat) : Option (List Term) :=
   (tbl.find? fun c => c.1.contains v).map (·.2)
 
 inductive Err
-  | digestVersion | facts | channelType | nodeTier | wire
+  | digestVersion | facts | channelType | nodeTier | wire | exists
 deriving DecidableEq, Repr
 
 def preimageOf (tbl : Option Table) (o : Order) : Except Err Bytes :=
@@ -151,6 +151,16 @@ deriving DecidableEq, Repr
 `Signer.SignMessage(ctx, digest[:], acct.TraderKey.KeyLocator)`; `k` = the key at that locator. -/
 def prepareOrderSig (H : Bytes → Bytes) (o : Order) (k : Nat) : Except Err Sig :=
   (digest H o).map fun d => ⟨k, d⟩
+
+/-- `manager.PrepareOrder` from the digest on, with the order store: the digest of the order GIVEN BY THE
+CALLER (the same object the caller then hands to `Client.SubmitOrder`) is signed, then
+`Store.SubmitOrder(order)` refuses a nonce that is already on record (`ErrOrderExists`, whatever the state of
+the stored order), otherwise the nonce is recorded.  `stored` = nonces in the client database. -/
+def prepareOrder (H : Bytes → Bytes) (stored : List Bytes) (o : Order) (k : Nat) :
+    Except Err Sig × List Bytes :=
+  match prepareOrderSig H o k with
+  | .error e => (.error e, stored)
+  | .ok σ => if stored.contains o.nonce then (.error .exists, stored) else (.ok σ, o.nonce :: stored)
 
 /-! ## SubmitOrder: the transmitted fields, from the regenerated literals -/
 
